@@ -294,10 +294,10 @@ def c10_check(pid, tier, seed, replay=None):
         missing = [f"{f}:{r}" for f in sorted(flows) for r in ("P", "L") if not tb["coverage"].get(f"faulted:{f}:{r}")]
         if missing or tb["divergences_total"]:
             raise Inconclusive(f"fault sweep vacuous: no fault reached in {missing}; prepared flows that did not succeed fault-free: {tb['divergences'][:3]}")
-        new, known = report(pid, tb["viols"] + tb2["viols"], lambda v: v["signature"],
+        new, known = report(pid, tb["viols"], lambda v: v["signature"],
                             lambda v: dict(rule=v["rule"], module=v["module"], id=v["id"], case=v["case"], observed=v["observed"]),
                             wd, [], seed, tier, extra_save=write_cases)
-        merge_evidence(pid, tier, seed, t0, part["coverage"], [tb, tb2], part["new"] + new, part["known"] + known,
+        merge_evidence(pid, tier, seed, t0, part["coverage"], [tb], part["new"] + new, part["known"] + known,
                        part["assumptions"] + ["fault sweep: 29 prepared flows x both routers x k-th storage call (k <= 12 / 16) x {error, deadline}; the fault plan is active only while the request is served",
                                               "level: every (flow, router, k, kind) is executed, i.e. exhaustive over the fault positions of the prepared histories"])
         return 1 if (part["new"] + new) else 0
